@@ -180,3 +180,35 @@ Proof.
     rewrite Hpre in Ha. destruct (run_app _ _ _ _ _ _ Ha) as (sr & sr' & Hsr & Her & _).
     exists a, er, b, sr. repeat split; try assumption. eapply step_KRouted; eauto.
 Qed.
+
+(** * Settled stays settled: a request past its claim that has left the in-flight set of [t],
+      or is cancelled, stays so *)
+
+Lemma step_settled : forall s e s' t x r p,
+  step s e = Some s' -> nget (targets s) t = Some x -> phase_of s r = Some p -> past_claim p = true ->
+  (~ In r (t_inflight x) \/ cancelled s r = true) ->
+  exists x' p', nget (targets s') t = Some x' /\ phase_of s' r = Some p' /\ past_claim p' = true /\
+    (~ In r (t_inflight x') \/ cancelled s' r = true).
+Proof.
+  intros s e s' t x r p H Hx Hp Hpc Hset.
+  destruct (step_tgt_fwd _ _ _ _ _ H Hx) as (x' & Hx' & _).
+  destruct (step_phase _ _ _ _ _ H Hp) as (p' & Hp' & Hr).
+  exists x', p'. split; [exact Hx'|]. split; [exact Hp'|]. split; [eapply past_claim_step; eauto|].
+  destruct Hset as [Hnf|Hc].
+  - destruct (in_dec Nat.eq_dec r (t_inflight x')) as [Hi|Hi]; [|now left].
+    destruct (step_inflight _ _ _ _ _ _ _ H Hx Hx' Hi) as [Hold|[_ [lb Hlb]]]; [contradiction|].
+    rewrite Hlb in Hp. inj_some. discriminate.
+  - right. eapply step_cancelled_mono; eauto.
+Qed.
+
+Lemma run_settled : forall tr s s' t x r p,
+  run step s tr = Some s' -> nget (targets s) t = Some x -> phase_of s r = Some p -> past_claim p = true ->
+  (~ In r (t_inflight x) \/ cancelled s r = true) ->
+  exists x', nget (targets s') t = Some x' /\ (~ In r (t_inflight x') \/ cancelled s' r = true).
+Proof.
+  induction tr as [|e tr IH]; intros s s' t x r p Hrun Hx Hp Hpc Hset; cbn [run] in Hrun.
+  - inversion Hrun; subst. eauto.
+  - destruct (step s e) as [s1|] eqn:E; [|discriminate].
+    destruct (step_settled _ _ _ _ _ _ _ E Hx Hp Hpc Hset) as (x1 & p1 & Hx1 & Hp1 & Hpc1 & Hset1).
+    exact (IH _ _ _ _ _ _ Hrun Hx1 Hp1 Hpc1 Hset1).
+Qed.
